@@ -3,7 +3,7 @@ use crate::fields::{mod_n_add, mod_n_from_hash, mod_n_inv, mod_n_mul, mod_n_sub,
 use crate::points::{sm9_u256_pairing, twist_point_add_full, Point, TwistPoint};
 use crate::u256::{sm9_random_u256, u256_cmp, xor, U256};
 use crate::{
-    SM9_HASH1_PREFIX, SM9_HASH2_PREFIX, SM9_HID_ENC, SM9_HID_EXCH, SM9_HID_SIGN, SM9_N_MINUS_ONE,
+    SM9_HASH1_PREFIX, SM9_HASH2_PREFIX, SM9_HID_ENC, SM9_HID_EXCH, SM9_HID_SIGN, SM9_N, SM9_N_MINUS_ONE,
     SM9_POINT_MONT_P1, SM9_TWIST_POINT_MONT_P2,
 };
 use gm_sm3::sm3_hash;
@@ -366,6 +366,10 @@ impl Sm9SignMasterKey {
     }
 
     pub fn verify_sign(&self, id: &[u8], data: &[u8], h: &U256, s: &Point) -> Sm9Result<()> {
+        // B2: h must be in [1, N-1]
+        if h.is_zero() || u256_cmp(h, &SM9_N) >= 0 {
+            return Err(Sm9Error::InvalidDigest);
+        }
         let g = sm9_u256_pairing(&self.ppubs, &SM9_POINT_MONT_P1);
         let t = g.pow(h);
         // B5: h1 = H1(ID || hid, N)
